@@ -577,6 +577,18 @@ def fw_saturated_double():
                 main=main, max_history={'B': 50}, horizon=12, rejections_expected=True)
 
 
+def flood_order():
+    """the 50-slot queue of a bus with a small history limit is filled to within a solver-chosen distance of full; the first event's
+    (async) handler refills the slot its own removal freed, dispatches a child while the queue is (nearly) full and awaits it if it was
+    accepted; every other event's synchronous handler tries to dispatch one more event while the queue is being drained.  Whatever
+    dispatch() accepted is taken in the order it was accepted (only the awaited child and its descendants may jump ahead)."""
+    handlers = [['A', 'P', 'hP', [['disp', 'A', 'C', 'X1', 'swallow'], ['dispawait_swallow', 'A', 'G', 'G1'], ['ret', 'p']]],
+                ['A', 'C', 'hC', [['disp', 'A', 'L', 'L_{inv}', 'swallow'], ['ret', 'c']], {'sync': True}],
+                ['A', 'G', 'hG', [['ret', 'g']], {'sync': True}], ['A', 'L', 'hL', [['ret', 'l']], {'sync': True}]]
+    main = [['root', 'A', 'P', 'P1'], ['burst_swallow', 'A', 'C', 'n', 'C'], ['idle', 'A'], ['obs_all', 'end']]
+    return dict(buses=['A'], ints={'n': [47, 51]}, reals={}, handlers=handlers, main=main, max_history={'A': 10}, horizon=6, rejections_expected=True)
+
+
 def flood_idle():
     """a burst larger than the queue onto a bus with a small history limit (rejections swallowed), then wait_until_idle()."""
     handlers = [['A', 'C', 'hC', [['ret', 'c']]]]
